@@ -154,48 +154,8 @@ func r18load(c *core.Ctx) {
 	const R = "R18.load"
 	c.Rule(R, "GetConfiguration: ReadFile(\"config.yaml\") → yaml.Unmarshal(bytes, receiver); no other writer of the configuration; loaded in main before first read")
 	fn := mustFunc(c, pStg, "Conf.GetConfiguration")
-	p := core.NewPather(fn)
-	rd := core.CallsTo(fn, "os.ReadFile")
-	um := core.CallsTo(fn, "gopkg.in/yaml.v2.Unmarshal")
-	ok := len(rd) == 1 && len(um) == 1
-	if ok {
-		name, _ := core.ConstString(rd[0].Common().Args[0])
-		a := um[0].Common().Args
-		ok = name == "config.yaml" && p.Path(a[0]) == p.Path(rd[0].(*ssa.Call))+"#0" && p.Path(a[1]) == "p0"
-	}
-	c.Check(ok, R, "stgutg.GetConfiguration:unmarshal", fn.Pos(), "yaml.Unmarshal(ReadFile(\"config.yaml\"), c)", "GetConfiguration must unmarshal the bytes of config.yaml into its receiver")
-	// nothing else may write through the receiver
-	bad := ""
-	var badPos token.Pos
-	for _, b := range fn.Blocks {
-		for _, in := range b.Instrs {
-			switch x := in.(type) {
-			case *ssa.Store:
-				if strings.HasPrefix(p.Path(x.Addr), "p0") {
-					bad, badPos = "store to "+p.Path(x.Addr), x.Pos()
-				}
-			case ssa.CallInstruction:
-				n := core.CalleeName(x.Common())
-				if n == "gopkg.in/yaml.v2.Unmarshal" || n == "os.ReadFile" {
-					continue
-				}
-				for _, a := range x.Common().Args {
-					ap := p.Path(a)
-					if ap == "p0" || strings.HasPrefix(ap, "p0.") {
-						// passing the (address of the) configuration to anything else can rewrite it
-						at := a.Type()
-						if mi, isMI := a.(*ssa.MakeInterface); isMI {
-							at = mi.X.Type()
-						}
-						if _, isPtr := at.Underlying().(*types.Pointer); isPtr {
-							bad, badPos = "configuration handed to "+shortName(n), x.Pos()
-						}
-					}
-				}
-			}
-		}
-	}
-	c.Check(bad == "", R, "stgutg.GetConfiguration:no-post-processing", badPos, "only yaml.Unmarshal writes the configuration", "the configuration is modified after parsing (%s): values no longer reach the procedures unchanged", bad)
+	_ = fn
+	r18loadX(c, R)
 	// main: GetConfiguration dominates every read; no store into the configuration
 	mainFn := mustFunc(c, pMain, "main")
 	mp := core.NewPather(mainFn)
